@@ -353,7 +353,9 @@ class Env(object):
 
 def eval_env (repo, module, e, env, cls=None):
   hit, v = env.lookup(e)
-  if hit: return v
+  if hit:
+    if v is globals().get('OPAQUE'): raise _Unknown()
+    return v
   if isinstance(e, ast.Constant): return e.value
   if isinstance(e, (ast.Tuple, ast.List, ast.Set)):
     vals = [eval_env(repo, module, x, env, cls) for x in e.elts]
@@ -459,11 +461,33 @@ _PURE_METHODS = ('split', 'rsplit', 'join', 'partition', 'rpartition', 'count', 
                  'lower', 'upper', 'strip', 'lstrip', 'rstrip', 'replace', 'find', 'index', 'get', 'isdigit',
                  'keys', 'values', 'items', 'encode', 'decode', 'ljust', 'rjust', 'zfill', 'format')
 
+class _Opaque(object):
+  """placeholder for an element whose value is not known (inside an otherwise known container)"""
+  def __repr__ (self): return '<?>'
+OPAQUE = _Opaque()
+
+def _partial (repo, module, e, env, cls):
+  try:
+    v = eval_env2(repo, module, e, env, cls)
+    return v
+  except _Unknown: return OPAQUE
+  except Exception: return OPAQUE
+
 def eval_env2 (repo, module, e, env, cls=None):
   """eval_env plus len/type/isinstance on known values, constant subscripts
   and builtin type names"""
   hit, v = env.lookup(e)
   if hit: return v
+  if isinstance(e, ast.Name):
+    # module-level literal containers, evaluated element-wise (unknown elements become OPAQUE)
+    r = module.lookup(e.id) if module is not None else None
+    if isinstance(r, tuple) and r[0] == 'const' and isinstance(r[2], (ast.Dict, ast.Tuple, ast.List)) and e.id not in _BUILTIN_VALUES:
+      return eval_env2(repo, r[1], r[2], Env(), None)
+  if isinstance(e, ast.Dict):
+    return dict((eval_env2(repo, module, k, env, cls), _partial(repo, module, v, env, cls)) for k, v in zip(e.keys, e.values))
+  if isinstance(e, (ast.Tuple, ast.List)) and any(not isinstance(x, ast.Constant) for x in e.elts):
+    vals = [_partial(repo, module, x, env, cls) for x in e.elts]
+    return tuple(vals) if isinstance(e, ast.Tuple) else vals
   if isinstance(e, ast.Name) and e.id in _BUILTIN_VALUES: return _BUILTIN_VALUES[e.id]
   if isinstance(e, ast.Call): return _eval_call(repo, module, e, env, cls)
   if isinstance(e, ast.Subscript):
@@ -499,13 +523,40 @@ def paths_under (repo, module, g, env, start, stops, cls=None, limit=200, track=
   Returns list of (nodes tuple, final Env)."""
   out = []
   stops = set(stops)
-  stack = [(start, (start,), env, frozenset())]
+  stack = [(start, (start,), env, frozenset(), ())]
+  steps = 0
   while stack and len(out) < limit:
-    n, path, e, used = stack.pop()
+    steps += 1
+    if steps > 200000: break
+    n, path, e, used, loops = stack.pop()
     if on_node is not None: on_node(n, e)
     if n in stops and len(path) > 1:
       out.append((path, e)); continue
     succ = n.succ
+    if n.kind == 'for' and track:
+      # bounded unrolling when the iterable is a known finite sequence
+      cur = dict(loops)
+      st_ = cur.get(n.id)
+      if st_ is None:
+        try:
+          seq = eval_env2(repo, module, n.ast.iter, e, cls)
+          seq = list(seq.items() if False else seq)
+          st_ = (seq, 0) if len(seq) <= 64 else None
+        except Exception: st_ = None
+      else:
+        st_ = (st_[0], st_[1] + 1)
+      if st_ is not None:
+        seq, idx = st_
+        if idx < len(seq):
+          cur[n.id] = st_
+          ne = _bind_target(n.ast.target, seq[idx], e)
+          for m, l in n.succ:
+            if l is True: stack.append((m, path + (m,), ne, frozenset(), tuple(sorted(cur.items(), key=lambda kv: kv[0]))))
+        else:
+          cur.pop(n.id, None)
+          for m, l in n.succ:
+            if l is False: stack.append((m, path + (m,), e, used, tuple(sorted(cur.items(), key=lambda kv: kv[0]))))
+        continue
     if n.kind == 'cond':
       try: v = bool(eval_env2(repo, module, n.ast, e, cls))
       except _Unknown: v = None
@@ -518,8 +569,24 @@ def paths_under (repo, module, g, env, start, stops, cls=None, limit=200, track=
       if l == 'exc': continue
       key = (n.id, m.id)
       if key in used: continue
-      stack.append((m, path + (m,), ne, used | {key}))
+      stack.append((m, path + (m,), ne, used | {key}, loops))
   return out
+
+def _bind_target (tgt, val, env):
+  ne = Env(dict(env.exact), list(env.matchers), getattr(env, 'call_hook', None))
+  def bind (t, v):
+    if isinstance(t, ast.Name):
+      _kill(ne, t.id)
+      if v is not OPAQUE: ne.exact[t.id] = v
+    elif isinstance(t, (ast.Tuple, ast.List)):
+      try: vs = list(v)
+      except Exception: vs = None
+      if vs is not None and len(vs) == len(t.elts):
+        for a, b in zip(t.elts, vs): bind(a, b)
+      else:
+        for a in t.elts: bind(a, OPAQUE)
+  bind(tgt, val)
+  return ne
 
 def _assign_env (repo, module, st, env, cls):
   ne = Env(dict(env.exact), list(env.matchers), getattr(env, 'call_hook', None))
